@@ -37,7 +37,9 @@ META = {
                   "ever, exactly one at quiescence, writes begun after a closing call returned report "
                   "ErrClosedConn, process alive; that Close blocks until teardown completed is not required. "
                   "Panics in Disconnected() or re-entrant Close from inside Disconnected() are out of scope. "
-                  "3-closer schedules are sampled; 2-closer schedules are sampled in quick, exhaustive in thorough.",
+                  "3-closer schedules are sampled; 2-closer schedules are sampled in quick, exhaustive in thorough. "
+                  "A call that has not returned 20 s after its schedule ended is a hung history (rejected); the one "
+                  "known shape (close vs handler switch releasing the play queue) is reached by the thorough tier only.",
     "technique": "TLA+ spec + TLC schedule/fault enumeration, forced replay on real code in a child process, "
                  "TLC trace validation",
 }
